@@ -43,6 +43,7 @@ def testset(pkgs):
 
 
 try:
+    os.makedirs(os.path.join(wt, pkgdir), exist_ok=True)   # a demo may live in a new sub-directory
     demo_dst = os.path.join(wt, pkgdir, "zz_seeded_demo_test.go")
     pkgs = ["./" + pkgdir.rstrip("/") + "/"] + extra
     base_tests = testset(pkgs)
